@@ -163,7 +163,7 @@ def rule_r2_r3_r4(ctx, rep, sl, mps):
                     rep.add("R3", fi.qname, cons if cons is not None else n,
                             f"the error list `{mp}` is used other than in `{mp} is None`, `{mp}.append(...)` or as the errs "
                             f"argument of a validator: a decision may depend on the validation mode", fi.loc(n))
-    rep.floor("raise/append pairs", 24)
+    rep.floor("raise/append pairs", 12)
 
 
 def rule_r5(ctx, rep):
@@ -244,5 +244,5 @@ def run(ctx, rep):
     if only in (None, "T"):
         rule_termination(ctx, rep, sl)
     rep.floor("entry point x mode", 6)
-    rep.floor("partial operations on the validation slice", 60)
-    rep.floor("spec subscripts discharged by D-SPEC", 15)
+    rep.floor("partial operations on the validation slice", 35)
+    rep.floor("spec subscripts discharged by D-SPEC", 8)
